@@ -128,6 +128,13 @@ def register(module: ModuleType) -> None:
         msg = f"Invalid call signature for {module}.compile. Return type must be `None`, not {paramtype}"
         raise RuntimeError(msg)
 
+    # A PDK package commonly re-exports the `compile` of the module it registered when imported.
+    # The two are one PDK, known by either name. Registering both would leave no unambiguous default.
+    for known in _mgr.modules:
+        if known.compile is module.compile:
+            _mgr.names[module.__name__] = known
+            return
+
     # Checks out. Add it.
     _mgr.modules.add(module)
     _mgr.names[module.__name__] = module
@@ -178,6 +185,7 @@ def set_default(to: Union[ModuleType, str]) -> None:
         if to is None:
             raise RuntimeError(f"No PDK named {to} registered")
     elif isinstance(to, ModuleType):
+        to = _mgr.names.get(to.__name__, to)  # A package stands for the module it re-exports
         if to not in _mgr.modules:
             raise RuntimeError(f"No PDK named {to} registered")
     else:
